@@ -197,6 +197,13 @@ func main() {
 					}
 				}
 			}
+			// long uptime: the collector's periodic clean-up pass runs while attempts are in flight
+			for _, bal := range []string{"priority", "least-connections"} {
+				add("gated", engine, bal, []string{"ok", "ok"}, 16, true)
+				scs[len(scs)-1].UptimeMin = 6
+				add("gated", engine, bal, []string{"ok"}, 16, true)
+				scs[len(scs)-1].UptimeMin = 61
+			}
 			// client abort: the backend stalls mid-body, the client goes away
 			for _, bal := range bals {
 				for _, chunked := range []bool{false, true} {
